@@ -29,6 +29,16 @@ Proof. exact format_nested. Qed.
 Theorem extend_appends : forall errs es, extend_error_list errs (EList (map EOne es)) = errs ++ es.
 Proof. exact extend_keeps_everything. Qed.
 
+(* the same for ANY nesting depth (ErrorList in ErrorList in ...): a tree whose leaves are all service errors is
+   flattened to exactly its leaves in order; in a mixed tree no service error is lost and the number of errors the
+   client sees is the number of leaves *)
+Theorem any_nesting_flattens_to_its_leaves : forall e, all_service e = true -> format_error e = service_leaves e.
+Proof. exact format_any_nesting. Qed.
+Theorem no_service_error_lost_in_mixed_trees : forall e x, In x (service_leaves e) -> In x (format_error e).
+Proof. exact service_error_never_lost. Qed.
+Theorem one_client_error_per_leaf : forall e, List.length (format_error e) = leaf_count e.
+Proof. exact format_counts_every_leaf. Qed.
+
 (* concurrently failing steps: under every completion order the client receives every error exactly once *)
 Theorem every_error_reaches_the_client : forall (groups : list (list json)) pi,
   Permutation pi (seq 0 (List.length groups)) -> Permutation (client_errors groups pi) (List.concat groups).
@@ -42,6 +52,16 @@ Theorem error_fields_preserved : forall ms,
   (forall p t, member_ci "path" ms = Some (JArr (p :: t)) -> assoc "path" (match r with JObj l => l | _ => [] end) = Some (JArr (p :: t))).
 Proof. exact reencode_keeps_fields. Qed.
 
+(* the round trip is a projection: an error that already went through it is a fixed point, so an error relayed
+   through several hops (service -> batch decoder -> executor -> client encoder) is altered at most once *)
+Theorem reencode_is_idempotent : forall e, reencode_error (reencode_error e) = reencode_error e.
+Proof. exact reencode_idempotent. Qed.
+
+Example c10_nesting_nonvacuous :
+  let e := EList [EList [EOne (JStr "a"); EList [EOne (JStr "b")]]; EList []; EOne (JStr "c")] in
+  all_service e = true /\ format_error e = [JStr "a"; JStr "b"; JStr "c"] /\ leaf_count e = 3.
+Proof. repeat split. Qed.
+
 Example c10_nonvacuous :
   query_batch 2 (ABody (Some (JArr [JObj [("errors", JArr [JObj [("message", JStr "a")]])]; JObj [("errors", JArr [JObj [("message", JStr "b")]])]])))
   = QErr (EServiceErrors [JObj [("message", JStr "a")]; JObj [("message", JStr "b")]]).
@@ -54,3 +74,7 @@ Print Assumptions nested_error_lists_flatten.
 Print Assumptions extend_appends.
 Print Assumptions every_error_reaches_the_client.
 Print Assumptions error_fields_preserved.
+Print Assumptions any_nesting_flattens_to_its_leaves.
+Print Assumptions no_service_error_lost_in_mixed_trees.
+Print Assumptions one_client_error_per_leaf.
+Print Assumptions reencode_is_idempotent.
